@@ -292,7 +292,8 @@ func pickRots(r *fw.Rand, base *gen.Scenario) (a, b rot, ok bool) {
 	return a, b, false
 }
 
-// twinOf derives a twin: URNs re-lettered by ro, redaction policy forced to policy everywhere an environment is given.
+// twinOf derives a twin: URNs re-lettered by ro, redaction policy forced to policy everywhere an environment is given
+// ("" = the environments keep the policies the scenario wrote).
 func twinOf(base *gen.Scenario, ro rot, policy string) *gen.Scenario {
 	t, err := cloneScenario(base)
 	if err != nil {
@@ -302,7 +303,9 @@ func twinOf(base *gen.Scenario, ro rot, policy string) *gen.Scenario {
 	for _, m := range t.Resumes {
 		mapURNs(map[string]any(m), ro.urn)
 	}
-	setPolicy(t, policy)
+	if policy != "" {
+		setPolicy(t, policy)
+	}
 	return t
 }
 
